@@ -128,6 +128,7 @@ let handle kind c =
         (w, descs.(b), o)) in
     let calls = next_list c (fun c -> string_of_bytes (next_bytes c)) in
     ignore calls;
+    let fd_delta = next_int c in
     (* ---- model ---- *)
     let fs0 = { f_local = local0; f_upload = (if up_present then Some up0 else None);
                 f_next = nat_of_int (ninit + nup) } in
@@ -159,7 +160,9 @@ let handle kind c =
         prop "call-bound" (Printf.sprintf "%d calls, bound %d for %d directory entries" ncalls (int_of_nat bound) ninit)
     end;
     (* ---- oracles on the implementation's observations ---- *)
-    if status = "hang" then prop "hang" "the run did not return: call budget exceeded, or blocked for ever on a mutex held by the run itself";
+    if status = "hang" then prop "hang" "the run did not return: call budget exceeded, blocked for ever on a mutex held by the run itself, or no call and no return within the deadline (watchdog)";
+    if fd_delta > 0 then
+      prop "fd-leak" (Printf.sprintf "the process holds %d more file descriptors after the run than before" fd_delta);
     if exported && escaped then prop "panic-escaped" "a panic escaped the exported Run";
     if (not exported) && escaped && not escaped_rand then
       prop "panic-escaped" "the inner uploader.Run panicked although no entropy failure was injected";
